@@ -137,6 +137,18 @@ func campaign(t *testing.T, prof gen.Profile) {
 		}(i)
 	}
 	wg.Wait()
+	// A timeout or a crash of the tool chain under load is not a verdict:
+	// such designs are re-run alone with a five times larger budget first.
+	sess.GenTimeout = 300 * time.Second
+	reruns := 0
+	for i, o := range outs {
+		if (o.Failure == "timeout" || o.Failure == "crash") && reruns < 3 {
+			reruns++
+			stats.Class("rerun-alone:" + o.Failure)
+			outs[i] = sess.GenerateAndCompile(designs[i], true)
+		}
+	}
+	sess.GenTimeout = 60 * time.Second
 
 	accepted, rejected := 0, 0
 	featSeen := map[string]bool{}
